@@ -67,11 +67,13 @@ package bcl
 //
 //@ group C15,C05,C11
 //@ func Unmarshal
+//@   assert [C19] interprets_with_the_options_given: at Interpret#1: len($opts) == len(opts) && (forall i int :: 0 <= i && i < len(opts) ==> $opts[i] == opts[i])
 //@   requires no_nil_option: forall i int :: 0 <= i && i < len(opts) ==> opts[i] != nil
 //@   assert [C15,C05] binds_only_after_successful_interpretation: at Bind#1: err == nil
 //@   ensures [C15] compile_error_stores_nothing: g.diags > 0 ==> g.assigned == old(g.assigned) && result != nil
 //
 //@ func UnmarshalFile
+//@   assert [C19] interprets_with_the_options_given: at InterpretFile#1: len($opts) == len(opts) && (forall i int :: 0 <= i && i < len(opts) ==> $opts[i] == opts[i])
 //@   requires input_given: f != nil
 //@   requires no_nil_option: forall i int :: 0 <= i && i < len(opts) ==> opts[i] != nil
 //@   requires fresh_protocol: g.closes == 0 && g.reads == 0 && g.ev_go == 0 && g.ev_send_rerr == 0 && g.ev_send_perr == 0 && g.ev_close_inpc == 0 && g.ev_close_done == 0 && g.ev_recv_done == 0 && g.ev_send_inpc == 0 && g.ev_recv_rerr == 0 && g.ev_recv_perr == 0
@@ -81,6 +83,8 @@ package bcl
 //@   ensures [C11] the_input_goes_through_the_pipeline_whatever_the_target: g.ev_go == 2 && g.ev_recv_rerr == 1 && g.ev_recv_perr == 1
 //
 //@ func InterpretFile
+//@   assert [C19] parses_with_the_options_given: at ParseFile#1: len($opts) == len(opts) && (forall i int :: 0 <= i && i < len(opts) ==> $opts[i] == opts[i])
+//@   assert [C19] executes_with_the_options_given: at Execute#1: len($opts) == len(opts) && (forall i int :: 0 <= i && i < len(opts) ==> $opts[i] == opts[i])
 //@   requires input_given: f != nil
 //@   requires no_nil_option: forall i int :: 0 <= i && i < len(opts) ==> opts[i] != nil
 //@   requires fresh_protocol: g.closes == 0 && g.reads == 0 && g.ev_go == 0 && g.ev_send_rerr == 0 && g.ev_send_perr == 0 && g.ev_close_inpc == 0 && g.ev_close_done == 0 && g.ev_recv_done == 0 && g.ev_send_inpc == 0 && g.ev_recv_rerr == 0 && g.ev_recv_perr == 0
